@@ -496,3 +496,19 @@ pub enum S4 {
 }
 
 pub const S4_ALL: [S4; 4] = [S4::X, S4::Y, S4::U1, S4::U2];
+
+/// A second animated struct whose markers are surrounded by the syntactic noise real code has:
+/// doc comments and other attributes before `#[animate]`, and un-marked fields that are themselves
+/// `Lerp`-able (so that wrongly treating them as animated still compiles).
+#[derive(Animate, Clone, Debug, Default, PartialEq)]
+pub struct P2 {
+    /// Documented and animated.
+    #[animate]
+    pub a: f32,
+    #[allow(dead_code)]
+    #[animate]
+    pub k: i32,
+    /// Documented, not animated.
+    pub z: f32,
+    pub w: u8,
+}
